@@ -94,6 +94,7 @@ pub fn props_for(family: &str) -> Vec<&'static str> {
     match family {
         "excl" => vec!["C04"],
         "count" => vec!["C06"],
+        "sharedsite" => vec!["C07"],
         _ => vec!["C05", "C04"],
     }
 }
@@ -144,6 +145,22 @@ pub fn generate(family: &str, profile: &str, seed: u64, index: u64) -> TScenario
                 calls[t].insert(pos, 100 + rng.below(900) as u32);
             }
             classes.push(format!("N{n}-m{k}-rej{rej}-threads{}", nt.min(16)));
+        }
+        "sharedsite" => {
+            // 2-4 threads, each 1-3 lifetimes built by the SAME fake!(.., times: N) line (a shared
+            // set-up helper), making exactly N calls, fewer, or more
+            let nt = 2 + rng.below(3) as usize;
+            n = 1 + rng.below(2) as usize;
+            for _ in 0..nt {
+                let nr = 1 + rng.below(3) as usize;
+                let mut rounds = Vec::new();
+                for _ in 0..nr {
+                    let c = *rng.pick(&[n as u32, n as u32, n as u32, n as u32 - 1, n as u32 + 1]);
+                    rounds.push(Round { kind: "counted".into(), calls: c, exit: "drop".into(), yields: rng.below(2) as u32 });
+                }
+                threads.push(rounds);
+            }
+            classes.push(format!("sharedsite-N{n}-threads{nt}"));
         }
         _ => {
             // handover: thread 0 holds an injector and lets go in some way; 1-2 waiters
@@ -352,6 +369,60 @@ pub fn execute(sc: &TScenario, sh: &Shared) -> Value {
             }
             let r = catch_unwind(AssertUnwindSafe(move || drop(inj)));
             *ev2.lock().unwrap() = Some(r.map_err(|p| panic_msg(&p)));
+        }
+        "sharedsite" => {
+            N_EXPECT.store(scn.n, Ordering::SeqCst);
+            let n = scn.n as u32;
+            let body = move |ti: usize, rounds: Vec<Round>| {
+                for (ri, r) in rounds.iter().enumerate() {
+                    let mut admitted = 0u32;
+                    let mut rejected = 0u32;
+                    let res = catch_unwind(AssertUnwindSafe(|| {
+                        let mut inj = InjectorPP::new();
+                        inj.when_called(ipp_sched::func!(fn (ct_fn)(u32) -> u32)).will_execute(counted_site());
+                        for c in 0..r.calls {
+                            simsched::thread::yield_now();
+                            match catch_unwind(AssertUnwindSafe(|| black_box(ct_fn as fn(u32) -> u32)(c))) {
+                                Ok(v) if v == c + 7000 => admitted += 1,
+                                Ok(v) => viol("counted-fake-wrong-value", format!("thread {ti} lifetime {ri}: call returned {v}")),
+                                Err(_) => rejected += 1,
+                            }
+                        }
+                        yields(r.yields);
+                        drop(inj);
+                    }));
+                    let what = format!("thread {ti} lifetime {ri} (times: {n}, {} call(s) made in this lifetime, all under this thread's own injector)", r.calls);
+                    if admitted != r.calls.min(n) || rejected != r.calls.saturating_sub(n) {
+                        viol("calls-of-another-lifetime-counted", format!("{what}: {admitted} admitted and {rejected} rejected, expected {} and {}", r.calls.min(n), r.calls.saturating_sub(n)));
+                    }
+                    match res {
+                        Ok(()) => {
+                            if r.calls != n {
+                                viol("count-mismatch-not-reported-at-scope-exit", format!("{what}: scope exit did not panic"));
+                            }
+                        }
+                        Err(p) => {
+                            let msg = panic_msg(&p);
+                            let nums: Vec<usize> = msg.split(|c: char| !c.is_ascii_digit()).filter(|t| !t.is_empty()).filter_map(|t| t.parse().ok()).collect();
+                            if r.calls == n {
+                                viol("verdict-judged-on-another-lifetimes-calls", format!("{what}: scope exit panicked with {msg:?}"));
+                            } else if !(nums.contains(&(n as usize)) && nums.contains(&(r.calls as usize))) {
+                                viol("verdict-judged-on-another-lifetimes-calls", format!("{what}: scope exit message {msg:?} does not name {n} and {}", r.calls));
+                            }
+                        }
+                    }
+                }
+            };
+            let mut hs = Vec::new();
+            for (ti, rounds) in scn.threads.iter().enumerate().skip(1) {
+                let rounds = rounds.clone();
+                let b = body.clone();
+                hs.push(simsched::thread::spawn(move || b(ti, rounds)));
+            }
+            body(0, scn.threads[0].clone());
+            for h in hs {
+                let _ = h.join();
+            }
         }
         fam => {
             let handover = fam != "excl";
